@@ -57,6 +57,50 @@ def runSeq (maxQ : Int) : Int → List (Int × Req) → Int × List Res
     let (l2, os) := runSeq maxQ l1 h
     (l2, o :: os)
 
+/-! ## several rules on one resource, and reloading (`core/flow/slot.go`, `rule_manager.go`)
+
+`flow.Slot.Check` walks the resource's controllers in order: a `nil`/zero wait continues, a positive wait is slept
+(so the next controller reads a later clock), a block ends the walk — the controllers visited before keep what they
+have added to their timestamps.  `buildResourceTrafficShapingController` rebuilds the list on every real reload: for
+each new rule, in order, the **first** remaining old controller whose bound rule `isEqualsTo` the new rule is moved
+over unchanged (bound rule, checker and `lastPassedTime` included); otherwise a fresh controller is generated
+(`lastPassedTime = 0`).  A Direct+Throttling rule never shares statistics (`needStatistic` is false), so the
+stat-reuse branch does not concern these rules.  The equality is a parameter `eq old new` (the driver transcribes
+the throttling-relevant fields of `Rule.isEqualsTo`: `StatIntervalInMs`, `MaxQueueingTimeMs`, `Float64Equals` on the
+threshold). -/
+
+/-- one request against the controllers `(maxQ, lastPassedTime, request class)` in order, arriving at `now`;
+    returns the new timestamps (same length) and the results of the controllers that were visited -/
+def chain (now : Int) : List (Int × Int × Req) → List Int × List Res
+  | [] => ([], [])
+  | (maxQ, last, q) :: rest =>
+    match doCheck maxQ last now q with
+    | (l', .block) => (l' :: rest.map (·.2.1), [.block])
+    | (l', .pass) => let r := chain now rest; (l' :: r.1, .pass :: r.2)
+    | (l', .wait w) => let r := chain (now + w) rest; (l' :: r.1, .wait w :: r.2)
+
+/-- a controller: the rule it was built for, and its checker's `lastPassedTime` -/
+structure Ctl (ρ : Type) where
+  rule : ρ
+  last : Int
+deriving Repr
+
+/-- index of the first controller whose bound rule equals `r` -/
+def findEq {ρ : Type} (eq : ρ → ρ → Bool) (r : ρ) : List (Ctl ρ) → Option Nat
+  | [] => none
+  | c :: cs => if eq c.rule r then some 0 else (findEq eq r cs).map (· + 1)
+
+/-- `buildResourceTrafficShapingController` for throttling rules -/
+def reload {ρ : Type} (eq : ρ → ρ → Bool) : List (Ctl ρ) → List ρ → List (Ctl ρ)
+  | _, [] => []
+  | old, r :: rs =>
+    match findEq eq r old with
+    | some i =>
+      match old[i]? with
+      | some c => c :: reload eq (old.eraseIdx i) rs
+      | none => ⟨r, 0⟩ :: reload eq old rs          -- unreachable
+    | none => ⟨r, 0⟩ :: reload eq old rs
+
 /-! ## small-step version -/
 
 inductive Pc where
